@@ -48,12 +48,12 @@ def shards(tier, seed):
 class Msg:
     __slots__ = ("stream", "index", "payload", "seq", "nframes")
 
-    def __init__(self, stream, index, nbytes):
+    def __init__(self, stream, index, nbytes, seq=None):
         self.stream, self.index = stream, index
         sid = stream[3]
         body = bytes(((sid * 37 + index * 11 + i * 3) % 251) + 1 for i in range(nbytes - 2))
         self.payload = HEAD + body
-        self.seq = index % 8
+        self.seq = (index % 8) if seq is None else (seq % 8)
         self.nframes = 1 if nbytes <= 6 else 1 + (nbytes - 6 + 6) // 7
 
 
@@ -208,31 +208,36 @@ def enum1(spec, acc):
     F = spec["F"]
     quick = spec["tier"] == "quick"
     m1 = Msg(STREAM_A, 0, nbytes_for_frames(F, rng))
-    m2 = Msg(STREAM_A, 1, nbytes_for_frames(rng.choice([1, 2, 3]), rng))
     m0 = Msg(STREAM_A, 7, nbytes_for_frames(2, rng))        # previous message (seq 7) for stale frames
     n = 0
     variants = list(window_variants(m1, max_dup=1 if (quick or F == 4) else 2))
     if "part" in spec:
         variants = variants[spec["part"]::spec["parts"]]
-    acc.set_exhaustive(f"1 stream, {F}-frame message: all orderings x drop/dup multisets", True)
-    for w1, counts in variants:
-        faults = any(c != 1 for c in counts) or [i for _, i in w1[1:]] != sorted(i for _, i in w1[1:])
-        tail = [(m2, i) for i in range(m2.nframes)]
-        run_history(w1 + tail, acc, f"enum1 F={F} counts={counts}", faults or True)
-        n += 1
-        # stale frame of the faulty message landing inside the next message's window
-        if n % (3 if quick else 1) == 0:
-            for j in range(1, m1.nframes):
-                for posn in range(1, len(tail) + 1):
-                    ev = w1 + tail[:posn] + [(m1, j)] + tail[posn:]
-                    run_history(ev, acc, f"enum1 F={F} counts={counts} stale m1.{j}@{posn}", True)
-        # a stale frame of the *previous* message (other sequence counter) inside this window
-        if n % (5 if quick else 1) == 0:
-            pre = [(m0, i) for i in range(m0.nframes)]
-            for posn in range(1, len(w1) + 1):
-                ev = pre + w1[:posn] + [(m0, 1)] + w1[posn:] + tail
-                run_history(ev, acc, f"enum1 F={F} counts={counts} stale m0.1@{posn}", True)
-        acc.cover("loss_dup_patterns", counts)
+    acc.set_exhaustive(f"1 stream, {F}-frame message: all orderings x drop/dup multisets x all 7 counter distances to the next message", True)
+    # the successor's sequence counter is any value other than the damaged message's (the standard only asks
+    # for consecutive counters to differ): every distance 1..7 is enumerated
+    gaps = [1, 2, 3, 4, 5, 6, 7]
+    followers = {g: Msg(STREAM_A, 1, nbytes_for_frames(rng.choice([2, 3]), rng), seq=g) for g in gaps}
+    for vi, (w1, counts) in enumerate(variants):
+        for gap in (gaps if (F < 4 or not quick) else [gaps[vi % 7], 4]):
+            m2 = followers[gap]
+            faults = any(c != 1 for c in counts) or [i for _, i in w1[1:]] != sorted(i for _, i in w1[1:])
+            tail = [(m2, i) for i in range(m2.nframes)]
+            run_history(w1 + tail, acc, f"enum1 F={F} counts={counts}", faults or True)
+            n += 1
+            # stale frame of the faulty message landing inside the next message's window
+            if n % (3 if quick else 1) == 0:
+                for j in range(1, m1.nframes):
+                    for posn in range(1, len(tail) + 1):
+                        ev = w1 + tail[:posn] + [(m1, j)] + tail[posn:]
+                        run_history(ev, acc, f"enum1 F={F} counts={counts} stale m1.{j}@{posn}", True)
+            # a stale frame of the *previous* message (other sequence counter) inside this window
+            if n % (5 if quick else 1) == 0:
+                pre = [(m0, i) for i in range(m0.nframes)]
+                for posn in range(1, len(w1) + 1):
+                    ev = pre + w1[:posn] + [(m0, 1)] + w1[posn:] + tail
+                    run_history(ev, acc, f"enum1 F={F} counts={counts} stale m0.1@{posn}", True)
+            acc.cover("loss_dup_patterns", counts)
     acc.sample({"kind": "enum1", "F": F, "variants": n, "example": witness(variants[len(variants) // 2][0], "example", None, -1)["events"]})
 
 
@@ -267,9 +272,11 @@ def interleavings(a, b, limit, rng):
 def stream_script(stream, rng, shapes):
     """Event list of one stream for the given per-message shapes: 'ok','perm','dup','loss','single'."""
     ev = []
+    seq = rng.randrange(8)
     for k, shape in enumerate(shapes):
         F = 1 if shape == "single" else rng.choice([2, 3])
-        m = Msg(stream, k, nbytes_for_frames(F, rng))
+        seq = (seq + rng.randint(1, 7)) % 8          # any counter other than the previous message's
+        m = Msg(stream, k, nbytes_for_frames(F, rng), seq=seq)
         idx = list(range(1, m.nframes))
         if shape == "perm":
             idx.reverse()
@@ -321,9 +328,11 @@ def random_histories(spec, acc):
         for st in use:
             ev = []
             prev = None
+            seq = rng.randrange(8)
             for k in range(rng.randint(2, 12)):
                 nb = rng.choice([3, 6, 7, 13, 14, 20, 27, 50, 100, 223, rng.randint(3, 223)])
-                m = Msg(st, k, nb)
+                seq = (seq + rng.randint(1, 7)) % 8
+                m = Msg(st, k, nb, seq=seq)
                 idx = list(range(1, m.nframes))
                 mode = rng.random()
                 if mode < 0.3:
